@@ -198,6 +198,19 @@ func ruleLoop(p *Program, r *Result, parts string) {
 					continue
 				}
 				bad := ""
+				// the only way on to another read, a handler or a write is the success edge of the test
+				_, okB := errEdges(c)
+				blocked := map[*ssa.BasicBlock]bool{}
+				for _, ob := range okB {
+					blocked[ob] = true
+				}
+				for _, sc := range c.Block().Succs {
+					for b := range blockReach(sc, blocked) {
+						if readBlocks[b] {
+							bad = fmt.Sprintf("after %s a path leads to another read (block %d) without passing the success edge of its error test: a failed read is not terminal", shortCall(c), b.Index)
+						}
+					}
+				}
 				for _, e := range errB {
 					reach := blockReach(e, nil)
 					for b := range reach {
